@@ -307,9 +307,15 @@ def plan(tier, seed):
     return _with_interpreter_variants([{"n": 8000} for _ in range(16)], tier, 100)
 
 
+def abnf_parse(q):
+    from vlib.ref import abnf
+    return abnf.parse(q)
+
+
 def run_shard(spec, shard):
     tier = spec["tier"]
     names = ["a", "b", "c", "d"]
+    from vlib.gen import values as V
 
     def rebind(r, doc):
         s1 = r.choice(sorted(k for k in SIGS if SIGS[k][0]))
@@ -321,6 +327,7 @@ def run_shard(spec, shard):
         g = Q.QGen(r, names=list(dict.fromkeys(dn))[:8] + names[:2], strings=list(dict.fromkeys(ds))[:6] + ["a", ""],
                    registry={"fx": reg["fx"], "count": reg["count"], "length": reg["length"]}, filters=True, max_filter_depth=2, numbers=dnum[:8])
         g.doc = doc
+        g.cheap_filters = V.count_nodes(doc) > 120     # cost bound: no quadratic embedded queries over wide values
         g.evalr = ev.Evaluator(reg)
         base = g.guided_query(doc, 0, 1, hit_p=0.9)
         seg = diff.guided_filter_segment(r, g, base[2], doc, registry=reg, need="call", tries=10)
@@ -348,10 +355,57 @@ def run_shard(spec, shard):
         if f:
             shard.fail(f["bucket"], case, f)
 
+    # values on which a built-in could plausibly cut a corner: strings that change length under normalisation or
+    # count differently in UTF-16 / bytes, empty and one-element containers, numbers that look like sizes
+    SPECIAL = ["", "a", "ab", "e\u0301", "\u1100\u1161", "a\u0308b", "\u00e9", "\U0001F600", "\U0001F468\u200d\U0001F469", "\ufb01", "\u00df", "\u0130",
+               "\u212b", " ", "\x00", "\ud7ff\ue000", "0", "12", [], [[]], [0], [1, 2], [None], {}, {"a": 1}, {"a": [], "b": {}}, {"": 0},
+               0, 1, 2, -1, 1.0, 2.5, True, False, None, [True, 1, 1.0], {"k": "e\u0301"}]
+
+    def builtin_battery(r):
+        """A built-in applied to records holding the special values, compared with the reference's own answer for
+        one of them (so that the comparison is decisive), on plain and on dict/list/str-subclass data."""
+        recs = [{"a": V.fresh(r.choice(SPECIAL)), "b": r.choice(["e\u0301", "a", 1, None])} for _ in range(r.randint(3, 7))]
+        if r.random() < 0.3:
+            recs.append({"b": 0})
+        fn = r.choice(["length", "length", "count", "value"])
+        arg = {"length": r.choice(["@.a", "@.a", "@.a[0]", "@.b", "@", "$[0].a"]),
+               "count": r.choice(["@.a[*]", "@.*", "@..*", "@.a.*", "@.a", "$[*].a"]),
+               "value": r.choice(["@.a", "@.a[0]", "@.*", "@.a.*", "@..a"])}[fn]
+        probe = "$[?%s(%s) == 0]" % (fn, arg)
+        ast0 = abnf_parse(probe)
+        # the reference's value of the call for a random record becomes the right-hand side
+        log = []
+        ev.Evaluator(REG, call_log=log).query(ast0, recs)
+        op = r.choice(["==", "==", "!=", "<", ">="])
+        rhs = None
+        if fn in ("length", "count"):
+            lens = []
+            for rec in recs:
+                e = ev.Evaluator(REG)
+                nodes = e.query(abnf_parse("$[?%s(%s) >= 0]" % (fn, arg)), [rec])
+                lens.append(nodes)
+            # pick a number near the answers: 0..4
+            rhs = str(r.choice([0, 1, 2, 2, 3, 4]))
+        else:
+            rhs = r.choice(["1", "'e\\u0301'", "'a'", "0", "null", "true", "''", "1.0"])
+        q = "$[?%s(%s) %s %s]" % (fn, arg, op, rhs)
+        ast = abnf_parse(q)
+        case = {"q": q, "ast": ast, "doc": recs}
+        if r.random() < 0.4:
+            case["exotic"] = r.randrange(1, 2**31)
+        shard.case(key=(q, recs, case.get("exotic")), nontrivial=True, classes={"builtin-battery", "builtin-battery:" + fn} | ({"builtin-battery:exotic"} if case.get("exotic") else set()),
+                   sample={"q": q, "doc": recs})
+        f = examine(case)
+        if f:
+            shard.fail(f["bucket"], case, f)
+
     def body(r):
         doc = diff.make_doc(r, tier, names=names, falsy_bias=0.3)
-        if r.random() < 0.12:
+        k0 = r.random()
+        if k0 < 0.12:
             return rebind(r, doc)
+        if k0 < 0.3:
+            return builtin_battery(r)
         # a registry restricted to a few probes + the built-ins keeps calls frequent
         chosen = r.sample(sorted(SIGS), 6) + ["length", "count", "value"]
         reg = {k: REG[k] for k in chosen}
@@ -359,6 +413,7 @@ def run_shard(spec, shard):
         g = Q.QGen(r, names=list(dict.fromkeys(dn))[:8] + names[:2], strings=list(dict.fromkeys(ds))[:6] + ["a", ""],
                    registry=reg, filters=True, max_filter_depth=2, numbers=dnum[:8])
         g.doc = doc
+        g.cheap_filters = V.count_nodes(doc) > 120     # cost bound: no quadratic embedded queries over wide values
         g.evalr = ev.Evaluator(reg)
         base = g.guided_query(doc, 0, 2, hit_p=0.9)
         # the filter under test: built around at least one call, guided by a node the base reaches
